@@ -281,7 +281,10 @@ class DiagLinearOperator(TriangularLinearOperator):
         evals, evecs = self._symeig(eigenvectors=True)
         S = torch.abs(evals)
         U = evecs
-        V = evecs * torch.sign(evals).unsqueeze(-1)
+        # sign of a zero entry taken as +1 so that V stays orthogonal; the eigenvectors are the identity, so
+        # V = diag(signs) (`evecs * signs.unsqueeze(-1)` is an elementwise product that keeps only signs[0])
+        signs = torch.where(evals < 0, -torch.ones_like(evals), torch.ones_like(evals))
+        V = DiagLinearOperator(signs)
         return U, S, V
 
     def _symeig(
